@@ -44,10 +44,7 @@ Proof.
   rewrite norm_idem'. destruct (n_insert acc (norm k) v) as [a o]. destruct o; [reflexivity | apply IH].
 Qed.
 Lemma add_map_norm n o : add_map n (option_map norm_kvs o) = add_map n o.
-Proof.
-  destruct o as [kvs|]; [|reflexivity]. cbn [option_map add_map]. revert n.
-  induction kvs as [|[k v] r IH]; intros n; [reflexivity|]. cbn [norm_kvs map fold_left fst snd]. rewrite norm_idem'. apply IH.
-Qed.
+Proof. destruct o as [kvs|]; [|reflexivity]. cbn [option_map add_map]. apply explicit_named_norm. Qed.
 Lemma call_evaluate_norm c : call_evaluate (norm_call c) = call_evaluate c.
 Proof.
   unfold call_evaluate, norm_call. cbn [c_named c_pos c_lsplat c_msplat c_asplat].
@@ -82,11 +79,20 @@ Proof.
   revert l. induction ps as [|p r IH]; intros [|x l]; cbn; auto. rewrite norm_idem', IH. reflexivity.
 Qed.
 
+Lemma existsb_norm_params nm ps : forall k,
+  existsb (fun p => match n_get nm (norm (fst p)) with Some _ => true | None => false end) (firstn k (norm_params ps))
+  = existsb (fun p => match n_get nm (norm (fst p)) with Some _ => true | None => false end) (firstn k ps).
+Proof.
+  induction ps as [|p r IH]; intros [|k]; try reflexivity.
+  unfold norm_params in *. cbn [map firstn existsb fst]. rewrite norm_idem'. rewrite IH. reflexivity.
+Qed.
+
 Lemma formal_eval_norm s pos nm : formal_eval (norm_sig s) pos nm = formal_eval s pos nm.
 Proof.
   unfold formal_eval, norm_sig. cbn [s_params s_rest]. fold (norm_params (s_params s)).
   assert (L : length (norm_params (s_params s)) = length (s_params s)) by apply map_length.
   rewrite L. rewrite combine_norm_params, skipn_norm_params, bind_rest_params_norm.
+  rewrite existsb_norm_params.
   destruct (s_rest s) as [r|]; cbn [option_map]; [|reflexivity].
   destruct (_ && _); [reflexivity|]. destruct (bind_rest_params _ _ _) as [[b' nm']|]; [|reflexivity].
   rewrite norm_idem'. reflexivity.
